@@ -458,6 +458,10 @@ func init() {
 		}
 		m["(github.com/cosmos/cosmos-sdk/types.ValAddress).Empty"] = m["(github.com/cosmos/cosmos-sdk/types.AccAddress).Empty"]
 		fromBech := func(ex *Exec, fr *frame, cc *ssa.CallCommon, a []Value) Value {
+			if sl, ok := a[0].(VSlice); ok {
+				// a byte-level address whose String() is modelled as the identity
+				return VTuple{sl, nilErr()}
+			}
 			s := a[0].(VStr)
 			if s.Atom != nil {
 				// String/FromBech32 are mutually inverse injections on address atoms
